@@ -196,7 +196,8 @@ def run(ctx: Ctx) -> None:
         for intrinsic in (False, True):
             for length in (0, 1, 2):
                 for kinds in itertools.product(("yes", "no", "const"), repeat=length):
-                    self_tok = Tok("self", args=[arg_tok(k, which) for k in kinds], **{f"intrinsically_{which}": intrinsic})
+                    # (the receiver knows its class: helper methods / properties of the class are interpreted too)
+                    self_tok = Tok("self", args=[arg_tok(k, which) for k in kinds], __classes__=ptb.mro(), **{f"intrinsically_{which}": intrinsic})
                     n += 1
                     try:
                         out = ev.run(prop.node.body, {prop.node.args.args[0].arg: self_tok})
